@@ -1,5 +1,6 @@
 mod emit;
 mod front;
+mod front_wasm;
 mod gen;
 mod model;
 mod parse;
@@ -204,6 +205,34 @@ fn cmd_gen_front(args: &[String]) {
                 })
                 .collect();
         }
+        "wasm" => {
+            let n = if thorough { 40000 } else { 4000 };
+            evs = (0..n)
+                .into_par_iter()
+                .map(|i| {
+                    let plan = front_wasm::wasm_plan(&mut rng_for(i), i + 1);
+                    builds.fetch_add(3, std::sync::atomic::Ordering::Relaxed);
+                    front_wasm::run_wasm_history(&plan)
+                })
+                .collect();
+        }
+        "py-plan" => {
+            let n = if thorough { 30000 } else { 3000 };
+            let plans: Vec<Value> = (0..n).map(|i| front::py_plan(&mut rng_for(i), i + 1)).collect();
+            std::fs::create_dir_all(&out).unwrap();
+            std::fs::write(format!("{}/py_scen.json", out), Value::Array(plans).to_string()).unwrap();
+            let _ = std::fs::remove_dir_all(&tmp);
+            println!("{{\"plans\": {}}}", n);
+            return;
+        }
+        "py-merge" => {
+            let plans: Value = serde_json::from_str(&std::fs::read_to_string(format!("{}/py_scen.json", out)).unwrap()).unwrap();
+            let results: Value = serde_json::from_str(&std::fs::read_to_string(format!("{}/py_res.json", out)).unwrap()).unwrap();
+            let (pa, ra) = (plans.as_array().unwrap(), results.as_array().unwrap());
+            assert_eq!(pa.len(), ra.len());
+            evs = pa.par_iter().zip(ra.par_iter()).map(|(p, r)| front::py_merge(p, r)).collect();
+            builds.fetch_add(evs.len() as u64 * 3, std::sync::atomic::Ordering::Relaxed);
+        }
         "replay" => {
             // re-execute recorded scenarios (index entries, one JSON object per line)
             let plan = arg(args, "--plan").expect("--plan");
@@ -234,6 +263,11 @@ fn cmd_gen_front(args: &[String]) {
                             }
                         }
                         evs.push(front::run_rust_history(h, &sets, &ops));
+                    }
+                    "hist-wasm" => evs.push(front_wasm::run_wasm_history(&v["plan"])),
+                    "hist-py" => {
+                        // executed by CPython beforehand (lib/vlib.py): the results travel with the plan
+                        evs.push(front::py_merge(&v["plan"], &v["results"]));
                     }
                     "threads" => evs.push(front::run_threads(h, &strs(&v["list"]), &model::Cfg::from_json(&v["cfg"]), 16, 32)),
                     "procs" => evs.push(front::run_procs(h, &strs(&v["list"]), &model::Cfg::from_json(&v["cfg"]), 16, &self_exe, &tmp)),
